@@ -114,7 +114,12 @@ class Interrupting(drive.Outcome):
     def interrupt(self):
         if not self._fired:
             self._fired = True
-            _thread.interrupt_main()
+            # a real SIGINT to our own process: the main thread, blocked in the join on this process' thread,
+            # takes the KeyboardInterrupt while the "process" is still running
+            import signal
+            import time
+            os.kill(os.getpid(), signal.SIGINT)
+            time.sleep(0.05)
         return False
 
     @interrupt.setter
@@ -249,10 +254,24 @@ def run_with_interrupt(wd, scn, sess, stop_at):
                 return Interrupting()
         return out
     ds.Script.__call__ = call
+    # a check started in the background (`cmd &`, nohup) inherits SIGINT = ignore, and then no KeyboardInterrupt
+    # is ever raised: install Python's default handler for the duration of the session
+    import signal
+    old_handler = signal.signal(signal.SIGINT, signal.default_int_handler)
     try:
-        return ds.run_session(wd, scn, sess)
+        obs = ds.run_session(wd, scn, sess)
+        # safety net against a lost interrupt (never a false alarm): an unexpected ending is confirmed twice
+        for attempt in range(2):
+            if obs['status'] == 'aborted' or counter['n'] < stop_at:
+                break
+            counter['n'] = 0
+            wd_retry = wd + '-retry%d' % attempt
+            os.makedirs(wd_retry)   # (abort scenarios start from an empty data file)
+            obs = ds.run_session(wd_retry, scn, sess)
+        return obs
     finally:
         ds.Script.__call__ = orig_call
+        signal.signal(signal.SIGINT, old_handler if old_handler is not None else signal.SIG_DFL)
 
 
 def session_clean(ck, inp, obs, which, allow_abort=False):
@@ -435,7 +454,7 @@ def run(ck):
             run_scenario(ck, scn, scripts, sched, choices, rng.random() < 0.12, 'enum%d' % n)
     ck.exhaustive = True
     # sampled larger assignments
-    for _ in range(150 if quick else 5000):
+    for _ in range(150 if quick else 1500):
         n = rng.randint(4, 5)
         assign = [rng.choice(BEHAVIOURS) for _ in range(n)]
         share = [rng.randrange(3) for _ in range(n)] if rng.random() < 0.6 else None
@@ -450,7 +469,7 @@ def run(ck):
             run_scenario(ck, scn, scripts, rng.choice(scheds), [rng.randrange(12) for _ in range(60)], False, 'deco',
                          with_control=False)
     # user abort at every start
-    for _ in range(6 if quick else 60):
+    for _ in range(6 if quick else 40):
         assign = [rng.choice(['ok', 'ok', 'fail0', 'failk']) for _ in range(rng.randint(1, 3))]
         scn, scripts = make_scenario(assign, rng)
         total = sum(len(s) for s in scripts)
